@@ -32,8 +32,14 @@ fn set_ev(w: &mut TraceWriter, v: u32) {
     w.event(json!({"ev": "set", "v": limbs(v)}));
 }
 
-fn cmp_ev(w: &mut TraceWriter, cur: u32, b: u32) {
-    w.event(json!({"ev": "cmp", "b": limbs(b),
+fn cmp_ev(w: &mut TraceWriter, rt: &tokio::runtime::Runtime, cur: u32, b: u32) {
+    // the XFR middleware's answer to an IXFR request of a client at serial
+    // cur when the zone is at serial b: "single" SOA or a "transfer"
+    let ixfr = std::panic::catch_unwind(std::panic::AssertUnwindSafe(|| {
+        ixfr_decision(rt, cur, b)
+    }))
+    .unwrap_or_else(|_| "panic".to_string());
+    w.event(json!({"ev": "cmp", "b": limbs(b), "ixfr": ixfr,
         "serial": lib_cmp(cur, b), "rev": lib_cmp(b, cur),
         "timestamp": lib_ts_cmp(cur, b), "newserial": lib_new_cmp(cur, b),
         "ref": ref_cmp(32, cur as u64, b as u64)}));
@@ -83,7 +89,7 @@ fn main() {
     let mut w = TraceWriter::create(&args[1]);
     let mut rng = Rng::new(args[2].parse().unwrap_or(1));
     let max: u64 = args[3].parse().unwrap_or(20000);
-    let rt = tokio::runtime::Builder::new_current_thread().build().expect("runtime");
+    let rt = tokio::runtime::Builder::new_current_thread().enable_all().build().expect("runtime");
     if let Some(p) = arg_value("--pairs") {
         let text = std::fs::read_to_string(p).expect("pairs file");
         for line in text.lines() {
@@ -93,7 +99,7 @@ fn main() {
             if let (Some(a), Some(b)) = (nums.next(), nums.next()) {
                 set_ev(&mut w, a);
                 match kind {
-                    "cmp" => cmp_ev(&mut w, a, b),
+                    "cmp" => cmp_ev(&mut w, &rt, a, b),
                     "add" => {
                         add_ev(&mut w, a, b);
                     }
@@ -140,7 +146,7 @@ fn main() {
                         .wrapping_sub(1 << 16),
                     _ => any(&mut rng),
                 };
-                cmp_ev(&mut w, cur, b);
+                cmp_ev(&mut w, &rt, cur, b);
             }
             _ => {
                 let n = match rng.below(8) {
